@@ -214,6 +214,24 @@ pub fn run(ctx: &Ctx) -> Report {
             }
         }
     }
+    // addresses (and ports) whose *obfuscated* form is one of the special-purpose addresses: the value
+    // an implementation keeps or puts on the wire is then ::, ::ffff:a.b.c.d, fe80::1, 0.0.0.0, port 0 ...
+    for txt in ["::", "::1", "::ffff:1.2.3.4", "::ffff:33.18.164.66", "::ffff:0.0.0.0", "::ffff:255.255.255.255", "::1.2.3.4", "64:ff9b::c000:201", "fe80::1", "ff02::1", "2002:c000:201::", "fc00::", "100::", "0.0.0.0", "255.255.255.255", "127.0.0.1", "224.0.0.1", "169.254.0.1"] {
+        let wire_ip: IpAddr = txt.parse().unwrap();
+        for wire_port in [0u16, 1, 0x2112, 0xFFFF] {
+            for t in tids {
+                let port = wire_port ^ 0x2112;
+                let ip = match wire_ip {
+                    IpAddr::V4(v4) => IpAddr::V4(Ipv4Addr::from(u32::from(v4) ^ 0x2112_A442)),
+                    IpAddr::V6(v6) => {
+                        let k: u128 = (0x2112_A442u128 << 96) | (t & ((1u128 << 96) - 1));
+                        IpAddr::V6(Ipv6Addr::from(u128::from(v6) ^ k))
+                    }
+                };
+                cases.push(mk_case(SocketAddr::new(ip, port), t));
+            }
+        }
+    }
     // lane pairs with all 65536 value pairs: IPv4 all 6 pairs; IPv6 adjacent lanes and lanes 8 apart
     // (carries, sign extension and word-boundary slips need two lanes to show)
     for i in 0..4usize {
@@ -255,7 +273,7 @@ pub fn run(ctx: &Ctx) -> Report {
         .reduce(Acc::default, |a, b| a.merge(b));
     acc.nontrivial = n_cases;
     let mut bounds = json!({"ports": 65536, "lane_walk_backgrounds": 5, "cases": n_cases});
-    let mut rule = "all 65536 ports x 4 addresses x 3 tids; every byte lane of IPv4/IPv6 address and of the transaction id takes all 256 values against 5 backgrounds (zeros, ones, equal to the XOR key, complement, seeded); boundary tids; 17 special-purpose addresses (unspecified, loopback, IPv4-mapped / -compatible, NAT64, link-local, multicast, 6to4, ...) x 5 ports x 4 tids; IPv4: all 6 lane pairs x all 65536 value pairs; IPv6: adjacent lanes and lanes 8 apart x 256 x (every 5th value + boundary set; all 256 in thorough); IPv6: all 96 single-bit-different tids; every judged operation is preceded on the same thread by operations under five related transaction ids".to_string();
+    let mut rule = "all 65536 ports x 4 addresses x 3 tids; every byte lane of IPv4/IPv6 address and of the transaction id takes all 256 values against 5 backgrounds (zeros, ones, equal to the XOR key, complement, seeded); boundary tids; 17 special-purpose addresses (unspecified, loopback, IPv4-mapped / -compatible, NAT64, link-local, multicast, 6to4, ...) x 5 ports x 4 tids, and the addresses whose obfuscated (XOR-ed) form is one of those; IPv4: all 6 lane pairs x all 65536 value pairs; IPv6: adjacent lanes and lanes 8 apart x 256 x (every 5th value + boundary set; all 256 in thorough); IPv6: all 96 single-bit-different tids; every judged operation is preceded on the same thread by operations under five related transaction ids".to_string();
     if ctx.tier == Tier::Thorough {
         // all 2^32 IPv4 addresses (fast path: address round trip + wire encoding)
         let fails = AtomicU64::new(0);
